@@ -11,6 +11,7 @@ import Driver.Heat
 import Driver.Magnetics
 import Driver.PostInt
 import Driver.PostIntE
+import Driver.PostIntH
 import Driver.Locate
 import Driver.BHCurve
 import Driver.FileCodec
@@ -30,6 +31,7 @@ def main (args : List String) : IO UInt32 := do
   | "assemble-h" :: _ => Driver.AssembleH.run stdin stdout; return 0
   | "assemble-e" :: _ => Driver.AssembleE.run stdin stdout; return 0
   | "magnetics" :: _ => Driver.Magnetics.run stdin stdout; return 0
+  | "postint-h" :: _ => Driver.PostIntH.run stdin stdout; return 0
   | "postint-e" :: _ => Driver.PostIntE.run stdin stdout; return 0
   | "postint" :: _ => Driver.PostInt.run stdin stdout; return 0
   | "edit" :: _ => Driver.Edit.run stdin stdout; return 0
